@@ -47,7 +47,7 @@ def m_throw(it, a): raise Thrown(a[0] if a else NULL)
 def m_thrower(it, a): raise Thrown(NULL)
 def m_new(it, a):
     n = a[0]
-    if is_sym(n): raise Unsupported('symbolic allocation size')
+    if is_sym(n): n = it.concretize(n)
     return it.alloc(max(1, n), 'heap')
 def m_free(it, a):
     p = a[0]
@@ -55,6 +55,7 @@ def m_free(it, a):
     return None
 def m_realloc(it, a):
     p, n = a
+    if is_sym(n): n = it.concretize(n)
     np_ = it.alloc(max(1, n), 'heap')
     if isinstance(p, Ptr) and p.obj != 0:
         o = it.objs[p.obj]; it.memcpy(np_, p, min(n, o.size - p.off)); o.freed = True
